@@ -149,6 +149,24 @@ def seedOf (env : Env) (d : Decl) : Outcome EVal :=
 
 def isDiscrete (t : PType) : Bool := t ≠ .real
 
+/-! ## which ensemble member's parameters resolve an attribute -/
+
+inductive Use where
+  | bounds
+  | nominal
+  | history
+  | seed
+deriving DecidableEq, Repr
+
+/-- bounds and nominals are shared by the whole ensemble and use member 0's parameter values
+    (`self.parameters(0)`); start values (history, seed) use the member's own -/
+def envOf (envs : Nat → Env) (u : Use) (member : Nat) : Env :=
+  match u with
+  | .bounds => envs 0
+  | .nominal => envs 0
+  | .history => envs member
+  | .seed => envs member
+
 /-! ## parameters and outputs -/
 
 /-- `dict.update` chain: model values, then the parameter file, then code -/
